@@ -42,6 +42,8 @@ Definition decl (op : Z) (ps : list Z) : option (Z * tree) :=
   | 53 => Some (api_cnv_apply_dft_tmp_bytes fam n (q 2%nat) (q 3%nat) (q 4%nat) (q 5%nat), t_cnv_apply_dft fam (q 3%nat) (q 4%nat) (q 5%nat))
   | 54 => Some (api_cnv_by_const_apply_tmp_bytes fam n (q 2%nat) (q 3%nat) (q 4%nat) (q 5%nat), t_cnv_by_const_apply fam (q 3%nat) (q 4%nat) (q 5%nat))
   | 55 => Some (api_cnv_pairwise_apply_dft_tmp_bytes fam n (q 2%nat) (q 3%nat) (q 4%nat) (q 5%nat), t_cnv_pairwise_apply_dft fam (q 3%nat) (q 4%nat) (q 5%nat))
+  (* Scratch::split_mut(threads, len) on threads * len bytes: ps = [be; n; threads; len] *)
+  | 60 => Some (q 2%nat * q 3%nat, split_mut (q 2%nat) (q 3%nat))
   | 101 => let lwe := mkInfos (q 2%nat) (q 3%nat) (div_ceil (q 4%nat) (q 3%nat)) 0 0 0 1 in
            Some (lwe_encrypt_sk_tmp_bytes fam n lwe, tree_lwe_encrypt_sk fam n lwe)
   | 102 => let lwe := mkInfos (q 2%nat) (q 3%nat) (div_ceil (q 4%nat) (q 3%nat)) 0 0 0 1 in
